@@ -490,6 +490,7 @@ func genBase(c *GenCtx) {
 		genLiterals(c)
 		genRepr(c)
 		genAlias(c)
+		genSkeleton(c, 6)
 	})
 	c.scaled(12, func(c *GenCtx) {
 		genArgs(c)
@@ -507,6 +508,7 @@ func generate(c *GenCtx) []Op {
 		genTyped(c, c.n(30000, 600000), 3)
 		genEquality(c)
 		genLet(c)
+		genSkeleton(c, 2)
 	case "C02":
 		genArgs(c)
 		genTyped(c, c.n(20000, 400000), 3)
@@ -540,6 +542,7 @@ func generate(c *GenCtx) []Op {
 		genCost(c)
 	case "C10":
 		genOperators(c)
+		genSkeleton(c, 2)
 	case "C11":
 		genStrings(c)
 	case "C12":
@@ -566,6 +569,7 @@ func generate(c *GenCtx) []Op {
 		genLet(c)
 	case "C20":
 		genEquality(c)
+		genSkeleton(c, 1)
 	default:
 		genCorpus(c)
 		genRandom(c, "rand", c.n(20000, 400000), 3)
